@@ -253,6 +253,60 @@ pub fn c12(o: &Oracle, thorough: bool, seed: u64, rep: &Report) {
     }
     rep.space("hand parsers of sizes 2..7 x 0..n+2 tokens x every whitespace character as separator (leading, trailing, doubled)", true, hands);
 
+    // every Unicode scalar value through every hand parser: in front of the text, glued behind the first
+    // token, between two tokens, and at the end (a parser that trims or skips some character class -- byte
+    // order mark, zero-width or format characters -- differs from "split on whitespace, then tokens")
+    {
+        let chunks: Vec<u32> = (0..=0x10FFu32).collect();
+        let bad = AtomicU64::new(0);
+        par_chunks(chunks.len(), |ci| {
+            let mut text = String::new();
+            for cp in (chunks[ci] << 8)..((chunks[ci] + 1) << 8) {
+                let c = match char::from_u32(cp) {
+                    Some(c) => c,
+                    None => continue,
+                };
+                for n in 2..=7usize {
+                    // every size for the Basic Multilingual Plane; one size per code point (rotating) beyond it
+                    if cp >= 0x10000 && (cp as usize) % 6 != n - 2 {
+                        continue;
+                    }
+                    let cards: Vec<String> = (0..n).map(|k| { let cd = &o.cards[(cp as usize + k * 9 + n) % 52]; format!("{}{}", cd.rank_char, cd.suit_letter) }).collect();
+                    for place in 0..4 {
+                        text.clear();
+                        match place {
+                            0 => { text.push(c); text.push_str(&cards.join(" ")); }
+                            1 => { text.push_str(&cards[0]); text.push(c); text.push(' '); text.push_str(&cards[1..].join(" ")); }
+                            2 => { text.push_str(&cards[0]); text.push(c); text.push_str(&cards[1..].join(" ")); }
+                            _ => { text.push_str(&cards.join(" ")); text.push(c); }
+                        }
+                        let toks = split_ws(o, &text);
+                        let got = guarded(|| Hand::parse(n, &text).map(|h| h.to_arr()));
+                        let ok = match &got {
+                            Err(_) => false,
+                            Ok(r) => {
+                                if toks.len() < n {
+                                    r.is_err()
+                                } else if toks.len() == n {
+                                    let e: Vec<u32> = toks.iter().map(|t| token_word(o, t)).collect();
+                                    r.as_ref().ok() == Some(&e)
+                                } else {
+                                    true
+                                }
+                            }
+                        };
+                        if !ok && bad.fetch_add(1, Ordering::Relaxed) < 20 {
+                            // through the recorded-event path, so that the replay file reproduces it
+                            check_hand(o, rep, n, &text);
+                        }
+                    }
+                }
+            }
+        });
+        rep.eval(scalars * 4);
+        rep.space("every Unicode scalar value in four placements (leading, glued to a token, between tokens, trailing) through the hand parsers of sizes 2..7 (every size up to U+FFFF, one size per code point beyond)", true, scalars * 4);
+    }
+
     // set parser: folds every token (short texts and texts far longer than a deck)
     for k in 0..400 {
         let ntok = if k < 200 { k % 9 } else { 40 + (k * 7) % 160 };
